@@ -538,6 +538,41 @@ func checkC09(w *World, c *Check, tier string) {
 		c.ok("C09.pair", "all", "-", fmt.Sprintf("%d comparisons in the Equals methods each relate one property of both operands", npair))
 	}
 
+	// ---- nilprop: a method is called on a property value only after IsNil has excluded the nil-likes ----
+	// (`x != nil` does not exclude a typed nil pointer stored in the interface: GetLink() on it dereferences nil)
+	{
+		nInv := 0
+		for _, f := range eqFns {
+			cnt := 0
+			for _, b := range f.Blocks {
+				for _, in := range b.Instrs {
+					call, ok := in.(*ssa.Call)
+					if !ok || !call.Common().IsInvoke() {
+						continue
+					}
+					recv := call.Common().Value
+					ld, isLd := unwrap(recv).(*ssa.UnOp)
+					if !isLd || ld.Op != token.MUL {
+						continue
+					}
+					fa, isFA := ld.X.(*ssa.FieldAddr)
+					if !isFA {
+						continue
+					}
+					nInv++
+					cnt++
+					key := fmt.Sprintf("%s:%s.%s()#%d", funcName(f), fieldNameOf(fa.X.Type(), fa.Field), call.Common().Method.Name(), cnt)
+					if isNilGuardedStrict(recv, b) {
+						c.ok("C09.nilprop", key, w.InstrPos(call), "under an IsNil test of the property")
+					} else {
+						c.bad("C09.nilprop", key, w.InstrPos(call), fmt.Sprintf("%s calls %s() on the property %s without IsNil having excluded a nil-like value (a `!= nil` test lets a typed nil pointer through): comparing an object whose %s holds a typed nil panics", funcName(f), call.Common().Method.Name(), fieldNameOf(fa.X.Type(), fa.Field), fieldNameOf(fa.X.Type(), fa.Field)))
+					}
+				}
+			}
+		}
+		c.stat("method_calls_on_properties_in_equals", nInv)
+	}
+
 	// ---- forms: a type predicate lists the value form of a vocabulary struct iff it lists the pointer form ----
 	for _, pn := range []string{"IsObject", "IsLink", "IsItemCollection", "IsIRI", "IsIRIs"} {
 		pf := w.Func(pn)
@@ -764,6 +799,58 @@ func checkC19(w *World, c *Check, tier string) {
 		c.bad("C19.eq", "NaturalLanguageValues.Equals→LangRefValue.Equals", w.FuncPos(nlvEq), "list equality does not use the entry equality")
 	}
 	checkSetLoops(w, c, "C19.eq", []string{"NaturalLanguageValues"})
+	// (full-scan) "equal exactly when they hold the same pairs", in any order: every entry of one list is looked up among
+	// ALL entries of the other. An inner scan that resumes where the previous look-up stopped compares positions, not
+	// sets: [en:x, -:y] and [-:y, en:x] become unequal.
+	{
+		lh := loopHeaders(nlvEq)
+		bad := ""
+		nInner := 0
+		for _, h := range nlvEq.Blocks {
+			// an inner loop header: it lies inside another loop
+			outer := false
+			for hh := range lh[h] {
+				if hh != h {
+					outer = true
+				}
+			}
+			if !outer || !lh[h][h] {
+				continue
+			}
+			nInner++
+			for _, in := range h.Instrs {
+				phi, ok := in.(*ssa.Phi)
+				if !ok {
+					break
+				}
+				if !isIntegerType(phi.Type()) {
+					continue
+				}
+				for i, e := range phi.Edges {
+					p := h.Preds[i]
+					if lh[p][h] {
+						continue // the back edge
+					}
+					if _, isConst := e.(*ssa.Const); isConst {
+						continue
+					}
+					// entered from the outer loop with a value that the outer loop carries along
+					if ep, isPhi := e.(*ssa.Phi); isPhi {
+						for hh := range lh[ep.Block()] {
+							if hh != h && ep.Block() == hh {
+								bad = fmt.Sprintf("the inner scan at %s starts from a position carried over from the previous look-up (%s), not from the first entry", w.Pos(phi.Pos()), shortVal(e))
+							}
+						}
+					}
+				}
+			}
+		}
+		if bad != "" {
+			c.bad("C19.eq", "NaturalLanguageValues.Equals:full-scan", w.FuncPos(nlvEq), "list equality is positional: "+bad+"; two lists holding the same tag/text pairs in a different order compare unequal")
+		} else {
+			c.ok("C19.eq", "NaturalLanguageValues.Equals:full-scan", w.FuncPos(nlvEq), fmt.Sprintf("%d inner scan(s), each over the whole list", nInner))
+		}
+	}
 
 	// ---- get ----
 	get := w.Method("NaturalLanguageValues", "Get")
@@ -1051,6 +1138,13 @@ func checkC19(w *World, c *Check, tier string) {
 					}
 				}
 			}
+			// the decision to append must come from the TAGS (a scan that found no entry with the tag), not from the text
+			// a lookup returned: Get(tag) is nil for a missing tag, but also for a present tag whose text is nil
+			for _, g := range rawGuards(ab) {
+				if textBasedCondition(g.cond, 0) {
+					appendBad = "Set decides whether to append by the text a lookup returned (nil/empty), not by whether an entry with the tag exists: a tag that is present with a nil text is appended a second time, the list grows and Get keeps returning the first entry"
+				}
+			}
 			afterStore := false
 			for _, sb := range storeBlocks {
 				if reaches(sb, ab) {
@@ -1253,4 +1347,105 @@ func counterOfStores(phi *ssa.Phi, storeBlocks []*ssa.BasicBlock, d int, seen ma
 		}
 	}
 	return true
+}
+
+// textBasedCondition: the condition tests a byte-slice value (a text) that a call returned or that was loaded from a
+// struct field, for nil or emptiness.
+func textBasedCondition(v ssa.Value, d int) bool {
+	if d > 5 || v == nil {
+		return false
+	}
+	isText := func(x ssa.Value) bool {
+		if !isByteSlice(x.Type()) {
+			return false
+		}
+		switch y := x.(type) {
+		case *ssa.Call:
+			_, isBuiltin := y.Common().Value.(*ssa.Builtin)
+			return !isBuiltin
+		case *ssa.UnOp:
+			_, isFA := y.X.(*ssa.FieldAddr)
+			return y.Op == token.MUL && isFA
+		case *ssa.Field:
+			return true
+		case *ssa.Extract:
+			return true
+		}
+		return false
+	}
+	switch x := v.(type) {
+	case *ssa.UnOp:
+		return textBasedCondition(x.X, d+1)
+	case *ssa.BinOp:
+		for _, o := range []ssa.Value{x.X, x.Y} {
+			if isText(o) {
+				return true
+			}
+			if inner, isLen := lenOperand(o); isLen && isText(inner) {
+				return true
+			}
+		}
+		return false
+	case *ssa.Phi:
+		for _, e := range x.Edges {
+			if textBasedCondition(e, d+1) {
+				return true
+			}
+		}
+	}
+	return false
+}
+
+// isNilGuardedStrict: block b is only reached on the false side of IsNil(v) (alone or in a disjunction) for the same
+// property v (same field of the same base).
+func isNilGuardedStrict(v ssa.Value, b *ssa.BasicBlock) bool {
+	same := func(a ssa.Value) bool {
+		a, vv := unwrap(a), unwrap(v)
+		if a == vv {
+			return true
+		}
+		la, ok1 := a.(*ssa.UnOp)
+		lv, ok2 := vv.(*ssa.UnOp)
+		if !ok1 || !ok2 || la.Op != token.MUL || lv.Op != token.MUL {
+			return false
+		}
+		fa, ok1 := la.X.(*ssa.FieldAddr)
+		fv, ok2 := lv.X.(*ssa.FieldAddr)
+		return ok1 && ok2 && fa.X == fv.X && fa.Field == fv.Field
+	}
+	for d := b; d != nil; d = d.Idom() {
+		id := d.Idom()
+		if id == nil {
+			break
+		}
+		iff, ok := id.Instrs[len(id.Instrs)-1].(*ssa.If)
+		if !ok {
+			continue
+		}
+		side := -1
+		for si, s := range id.Succs {
+			if len(s.Preds) == 1 && (s == b || s.Dominates(b)) {
+				side = si
+			}
+		}
+		if side < 0 {
+			continue
+		}
+		cond := iff.Cond
+		onTrue := side == 0
+		if n, isNot := cond.(*ssa.UnOp); isNot && n.Op == token.NOT {
+			cond, onTrue = n.X, !onTrue
+		}
+		if onTrue {
+			continue
+		}
+		for _, dj := range disjuncts(cond, 0) {
+			if call, isCall := dj.(*ssa.Call); isCall {
+				if cal := call.Common().StaticCallee(); cal != nil && cal.Name() == "IsNil" && len(call.Common().Args) == 1 && same(call.Common().Args[0]) {
+					return true
+				}
+			}
+		}
+	}
+	return false
 }
